@@ -14,14 +14,20 @@
 (*   ooo_isolation.go / ooo_head_read.go  TrackReadAfter, chunk selection   *)
 (*            by lastGarbageCollectedMmapRef                                *)
 (*                                                                         *)
-(* Data abstraction: three committed samples, one per location class:      *)
-(*   "L" in-order, time 0: in a head chunk entirely below the truncation    *)
-(*       time; head compaction moves it into block b1 and gc drops it       *)
-(*   "H" in-order, time 1: stays in the head                                *)
+(* Data abstraction: five committed samples (one series and chunk each) on  *)
+(* the abstract time axis 0..4, the truncation time T being 3:              *)
 (*   "O" out-of-order, time 0: in the OOO head chunk; OOO compaction        *)
 (*       m-maps it (ref 1), writes block b2, gc drops the m-mapped chunk    *)
+(*   "L" in-order, time 1 (the head's old minimum) and                      *)
+(*   "M" in-order, time 2 = T-1: head compaction moves them into block b1   *)
+(*       = [1, T) and gc drops them from the head                           *)
+(*   "B" in-order, time 3 = T exactly: stays in the head (blocks are        *)
+(*       half-open), "A" in-order, time 4 = T+1: stays in the head          *)
 (* b3 = compaction of b1 and b2, whose deletion must wait for readers.      *)
-(* Time is {0,1}; the truncation time is 1.                                 *)
+(* Query ranges [lo, hi] are placed relative to T: lo in {0 (below the OOO  *)
+(* data), 1 (old head minimum, above the OOO data), 2 (inside), 3 (= T)},   *)
+(* hi in {2 (T-1), 3 (T), 4 (T+1)}; ExactlyOnce is evaluated per query over *)
+(* its own range.                                                           *)
 (*                                                                         *)
 (* Processes: one compaction thread (pc cpc, db.cmtx held throughout) and   *)
 (* query threads 1..NQ.  db.mtx is modelled with writer preference (a       *)
@@ -32,12 +38,12 @@
 EXTENDS Integers, Sequences, FiniteSets, TLC, Json
 
 CONSTANTS NQ,        \* number of query threads
-          Ranges,    \* set of query range names: "lo" = [0,0], "full" = [0,1], "hi" = [1,1] over times {0,1}
+          Ranges,    \* set of query range names "<lo>_<hi>", e.g. "1_3" = [old head min, T]
           Phases,    \* subset of {"head","ooo","blocks"} the compaction thread runs, in this order
           EmitMode,  \* "all" | "state" | "none"
           Record,    \* TRUE: keep the history variable (FALSE for liveness checking without VIEW)
           Variant    \* "none", or a named design mutation used to show that the properties are not vacuous:
-                     \* "reload_after_gc" (block list swapped after the head is truncated), "no_wait" (truncation does not
+                     \* "reload_after_gc" (block list swapped after the head is truncated), "collide_le" (a query ending exactly at the truncation time is treated as below it), "no_wait" (truncation does not
                      \* wait for readers), "no_owait" (OOO gc does not wait), "publish_before_reload", "no_close_wait"
 
 VARIABLES cpc,        \* compaction thread pc
@@ -60,12 +66,21 @@ View0 == <<cpc, headIn, oooChunk, oooMm, blk, dbBlocks, headMin, truncTime, inPr
 
 Qs == 1..NQ
 Blocks == {"b1", "b2", "b3"}
-Samples == {"L", "H", "O"}
-Time(s) == IF s = "H" THEN 1 ELSE 0
+Samples == {"O", "L", "M", "B", "A"}
+Time(s) == CASE s = "O" -> 0 [] s = "L" -> 1 [] s = "M" -> 2 [] s = "B" -> 3 [] s = "A" -> 4
 InRange(s, lo, hi) == lo <= Time(s) /\ Time(s) <= hi
 MaxI(a, b) == IF a >= b THEN a ELSE b
-RangeOf(n) == CASE n = "lo" -> <<0, 0>> [] n = "full" -> <<0, 1>> [] n = "hi" -> <<1, 1>>
-TT == 1   \* the truncation time (BlockMaxTime of the compacted head range)
+RangeOf(n) == CASE n = "0_2" -> <<0, 2>> [] n = "0_3" -> <<0, 3>> [] n = "0_4" -> <<0, 4>>
+                [] n = "1_2" -> <<1, 2>> [] n = "1_3" -> <<1, 3>> [] n = "1_4" -> <<1, 4>>
+                [] n = "2_2" -> <<2, 2>> [] n = "2_3" -> <<2, 3>> [] n = "2_4" -> <<2, 4>>
+                [] n = "3_3" -> <<3, 3>> [] n = "3_4" -> <<3, 4>>
+AllRanges == {"0_2", "0_3", "0_4", "1_2", "1_3", "1_4", "2_2", "2_3", "2_4", "3_3", "3_4"}
+TT == 3       \* the truncation time (BlockMaxTime of the compacted head range)
+HeadMin0 == 1 \* Head.MinTime before the truncation (the oldest in-order sample)
+\* lowest time covered by a block: b1 = [old head min, T), the OOO block b2 and b3 are aligned to the block range [0, T)
+BlockMin(b) == IF b = "b1" THEN HeadMin0 ELSE 0
+\* Block.OverlapsClosedInterval(lo, hi) for a block [BlockMin, T)
+BlockOverlaps(b, lo, hi) == BlockMin(b) <= hi /\ lo < TT
 
 NoQ == [pc |-> "idle", lo |-> 0, hi |-> 0, snap |-> {}, ino |-> 0,
         hrd |-> {},        \* head reads registered in iso.readsOpen: set of <<lo, hi>>
@@ -89,10 +104,10 @@ NextPc == Program[PcIdx(cpc) + 1]
 
 Init ==
   /\ cpc = Program[1]
-  /\ headIn = {"L", "H"} /\ oooChunk = {"O"} /\ oooMm = {}
+  /\ headIn = {"L", "M", "B", "A"} /\ oooChunk = {"O"} /\ oooMm = {}
   /\ blk = [b \in Blocks |-> [st |-> "none", smp |-> {}, pend |-> 0]]
   /\ dbBlocks = {}
-  /\ headMin = 0 /\ truncTime = -1 /\ inProc = FALSE /\ lastGCRef = 0
+  /\ headMin = HeadMin0 /\ truncTime = -1 /\ inProc = FALSE /\ lastGCRef = 0
   /\ mtxR = {} /\ mtxWait = FALSE
   /\ q = [i \in Qs |-> NoQ]
   /\ hist = <<>>
@@ -214,21 +229,23 @@ QSnap(i, rn) ==
   /\ \A j \in Qs : j < i => q[j].pc # "idle"             \* symmetry: queries start in index order
   /\ mtxR' = mtxR \cup {i}
   /\ q' = [q EXCEPT ![i] = [NoQ EXCEPT !.pc = "snapped", !.lo = r[1], !.hi = r[2],
-                            !.snap = IF r[1] <= 0 THEN dbBlocks ELSE {}]]   \* every block covers time 0 only
+                            !.snap = {b \in dbBlocks : BlockOverlaps(b, r[1], r[2])}]]
   /\ UNCHANGED blk /\ UnchQ
-  /\ Log([t |-> "q", i |-> i, a |-> "q_snap", range |-> rn, lo |-> r[1], hi |-> r[2], snap |-> (IF r[1] <= 0 THEN dbBlocks ELSE {}),
+  /\ Log([t |-> "q", i |-> i, a |-> "q_snap", range |-> rn, lo |-> r[1], hi |-> r[2], snap |-> {b \in dbBlocks : BlockOverlaps(b, r[1], r[2])},
           exp |-> {s \in Samples : InRange(s, r[1], r[2])}])
 
-\* overlapsOOO, inoMint, open the head querier (registers the read)   [-> db.querier.head_opened]
+\* overlapsOOO, inoMint; the head querier is opened (and its read registered) only if the range reaches the
+\* head (maxt >= Head.MinTime) or overlaps the OOO data          [-> db.querier.head_opened | db.querier.head_done]
 QOpenHead(i) ==
   /\ q[i].pc = "snapped"
-  /\ LET ov == q[i].lo <= 0          \* the OOO time range [.., 0] overlaps the query
-         ino == IF headMin > q[i].lo THEN headMin ELSE q[i].lo
-     IN q' = [q EXCEPT ![i].pc = "headopen", ![i].ovo = ov, ![i].ino = ino,
-                       ![i].hrd = {<<q[i].lo, q[i].hi>>},
-                       ![i].hq = <<ino, q[i].hi>>]
-  /\ UNCHANGED <<blk, mtxR>> /\ UnchQ
-  /\ Log([t |-> "q", i |-> i, a |-> "q_openhead"])
+  /\ LET ov   == q[i].lo <= 0          \* the OOO time range [.., 0] overlaps the query
+         ino  == IF headMin > q[i].lo THEN headMin ELSE q[i].lo
+         need == q[i].hi >= headMin \/ ov
+     IN /\ q' = [q EXCEPT ![i].pc = IF need THEN "headopen" ELSE "headdone", ![i].ovo = ov, ![i].ino = ino,
+                          ![i].hrd = IF need THEN {<<q[i].lo, q[i].hi>>} ELSE {},
+                          ![i].hq = IF need THEN <<ino, q[i].hi>> ELSE <<>>]
+        /\ UNCHANGED <<blk, mtxR>> /\ UnchQ
+        /\ Log([t |-> "q", i |-> i, a |-> "q_openhead", need |-> need])
 
 \* IsQuerierCollidingWithTruncation, first load: memTruncationInProcess
 \*   false -> returns                                              [-> db.querier.checked]
@@ -239,13 +256,16 @@ QCheckFlag(i) ==
   /\ UNCHANGED <<blk, mtxR>> /\ UnchQ
   /\ Log([t |-> "q", i |-> i, a |-> "q_checkflag", flag |-> inProc])
 
+\* "the query lies entirely below the truncation time": querierMaxt < memTruncTime (blocks are half-open, the
+\* sample at the truncation time itself stays in the head); the design mutation "collide_le" uses <=
+Below(hi, tt) == IF Variant = "collide_le" THEN hi <= tt ELSE hi < tt
 \* second load: lastMemoryTruncationTime; decide close / reopen          [-> db.querier.checked]
 \* (the decision is kept in flag/ino; it is applied by QResolve)
 QCheckTime(i) ==
   /\ q[i].pc = "flagseen"
   /\ q' = [q EXCEPT ![i].pc = "checked",
-                    ![i].flag = (q[i].hi < truncTime \/ q[i].lo < truncTime),       \* shouldClose
-                    ![i].ino = IF q[i].hi < truncTime \/ q[i].lo < truncTime THEN truncTime ELSE q[i].ino]
+                    ![i].flag = (Below(q[i].hi, truncTime) \/ q[i].lo < truncTime),       \* shouldClose
+                    ![i].ino = IF Below(q[i].hi, truncTime) \/ q[i].lo < truncTime THEN truncTime ELSE q[i].ino]
   /\ UNCHANGED <<blk, mtxR>> /\ UnchQ
   /\ Log([t |-> "q", i |-> i, a |-> "q_checktime", tt |-> truncTime])
 
@@ -255,7 +275,7 @@ QCheckTime(i) ==
 QResolve(i) ==
   /\ q[i].pc = "checked"
   /\ LET close  == q[i].flag
-         getnew == close /\ ~(q[i].hi < q[i].ino)
+         getnew == close /\ ~Below(q[i].hi, q[i].ino)
          hq1    == IF ~close THEN q[i].hq ELSE IF getnew THEN <<MaxI(q[i].ino, headMin), q[i].hi>> ELSE <<>>
          hrd1   == IF ~close THEN q[i].hrd ELSE IF getnew THEN {<<q[i].ino, q[i].hi>>} ELSE {}
          hrd2   == IF q[i].ovo THEN hrd1 \cup {<<q[i].ino, q[i].hi>>} ELSE hrd1
@@ -320,7 +340,7 @@ FairSpec == Spec /\ WF_vars(Compaction) /\ \A i \in Qs : WF_vars(QueryI(i))
 (* Properties.                                                              *)
 
 TypeOK == /\ cpc \in {Program[i] : i \in 1..Len(Program)}
-          /\ headMin \in {0, 1} /\ truncTime \in {-1, 1} /\ lastGCRef \in {0, 1}
+          /\ headMin \in {HeadMin0, TT} /\ truncTime \in {-1, TT} /\ lastGCRef \in {0, 1}
           /\ \A b \in Blocks : blk[b].pend \in 0..NQ
 
 \* every committed sample lives somewhere a new query can find it
